@@ -127,6 +127,9 @@ func Normalize(list Normalizers, doc any) {
 	if doc == nil {
 		return
 	}
+	if v := reflect.ValueOf(doc); v.Kind() == reflect.Ptr && v.IsNil() {
+		return // nothing to normalize, e.g. a null entry in an array
+	}
 	if n, ok := doc.(normalizeImpl); ok {
 		n.Normalize(list)
 	} else {
